@@ -1,6 +1,7 @@
 import Driver.Common
 import CoapVerif.Model.Blockwise
 import CoapVerif.Model.BlockwiseObserve
+import CoapVerif.Model.BlockwiseCancel
 import CoapVerif.Spec.Blockwise
 /-!
 Driver for C04.  Input lines (one case = `cfg` … `end`):
@@ -8,7 +9,8 @@ Driver for C04.  Input lines (one case = `cfg` … `end`):
   cfg <szxA> <maxA> <expA ms> <szxB> <maxB> <expB ms>
   reg <A|B> <tok> <code> <len> <seed> <etag|-> <other|->     the application of that side supplies this message for <tok>
                                                               (A: the request it will send, B: how it answers requests)
-  do <tok> <timeout ms>            A calls Do with its registered request
+  do <tok> <timeout ms|->          A calls Do with its registered request (`-`: its context has no deadline)
+  cancel <tok>                     A's application abandons its pending call for <tok> (cancels the context; `World.cancel`)
   write <A|B> <tok>                that side calls WriteMessage (one-way) with its registered message
   net deliver|dup|drop|swap        relay decision on the oldest message in flight
   net replay <k>                   deliver the k-th message of the relay's history again
@@ -20,6 +22,9 @@ Driver for C04.  Input lines (one case = `cfg` … `end`):
   fresh <tok>                      the next token message.GetToken returns (an 8-byte token); without it the tokens are
                                    freshBase, freshBase+1, … (17361376563513262080 + i), on both sides of the tie
   resource <code> <len> <seed> <etag|-> <other|->    how B's application answers a request whose token has no `reg B`
+
+<seed> names a body: `<s>` — byte i is bodyByte s i — or `<s1>:<k>:<s2>` — bytes [0, k) of body(s1), then bodyByte s2 i for
+i >= k: a representation that shares its first k bytes (whole blocks for suitable k) with body(s1) and differs afterwards.
 
 Output: the events observed after the operation, ` ; ` separated (`none` if nothing happened):
   wire <S> <msg> · arr <S> <msg> · dlv <S> <msg> · ret <tok> ok <msg> · ret <tok> err · wret <S> <tok> ok|err · err <S>
@@ -33,6 +38,16 @@ open CoapVerif CoapVerif.Model.Blockwise CoapVerif.Model.BlockwiseObserve
 
 def bodyByte (seed i : Nat) : UInt8 := UInt8.ofNat ((i * 167 + (i / 256) * 59 + seed * 101 + 13) % 256)
 def genBody (seed off len : Nat) : List UInt8 := (List.range len).map (fun j => bodyByte seed (off + j))
+
+/-- `<s>` or `<s1>:<k>:<s2>` (see above) -/
+def parseSeed (s : String) : Option (Nat × Nat × Nat) :=
+  match s.splitOn ":" with
+  | [a] => a.toNat?.map (fun a => (a, 0, a))
+  | [a, k, b] => do let a ← a.toNat?; let k ← k.toNat?; let b ← b.toNat?; some (a, k, b)
+  | _ => none
+
+def genBodySpec (sp : Nat × Nat × Nat) (off len : Nat) : List UInt8 :=
+  (List.range len).map (fun j => if off + j < sp.2.1 then bodyByte sp.1 (off + j) else bodyByte sp.2.2 (off + j))
 
 def sideStr : Side → String | .A => "A" | .B => "B"
 def parseSide : String → Option Side | "A" => some .A | "B" => some .B | _ => none
@@ -141,19 +156,25 @@ def modelStep (s : MState) (line : String) : MState × String :=
          active := true }, "ok")
     | _, _, _, _, _, _ => (s, "bad-op")
   | ["reg", sd, tok, code, len, seed, etag, other] =>
-    match parseSide sd, tok.toNat?, code.toNat?, len.toNat?, seed.toNat?, parseEtag etag, parseOther other with
+    match parseSide sd, tok.toNat?, code.toNat?, len.toNat?, parseSeed seed, parseEtag etag, parseOther other with
     | some sd, some tok, some code, some len, some seed, some etag, some other =>
-      let m : Msg := { code := code, tok := tok, etag := etag, other := other, body := genBody seed 0 len }
+      let m : Msg := { code := code, tok := tok, etag := etag, other := other, body := genBodySpec seed 0 len }
       let regs := s.regs ++ [⟨sd, m⟩]
       ({ s with regs := regs, keys := if s.keys.contains tok then s.keys else tok :: s.keys, w := { s.w with appB := mkAppB regs s.resource } }, "ok")
     | _, _, _, _, _, _, _ => (s, "bad-op")
   | ["do", tok, tmo] =>
-    match tok.toNat?, tmo.toNat? with
+    match tok.toNat?, (if tmo = "-" then some none else tmo.toNat?.map some) with
     | some tok, some tmo =>
       match lookupReg s.regs .A tok with
-      | some r => let (w, evs) := s.w.startDo { r with deadline := some (s.w.now + ms tmo) }; fin w evs
+      | some r => let (w, evs) := s.w.startDo { r with deadline := tmo.map (fun t => s.w.now + ms t) }; fin w evs
       | none => (s, "bad-op")
     | _, _ => (s, "bad-op")
+  | ["cancel", tok] =>
+    match tok.toNat? with
+    | some tok =>
+      -- (only a call without deadline can be cancelled through the line protocol)
+      if s.w.pending.any (fun p => p.tok == tok && p.deadline.isNone) then let (w, evs) := s.w.cancel tok; fin w evs else (s, "none")
+    | none => (s, "bad-op")
   | ["write", sd, tok] =>
     match parseSide sd, tok.toNat? with
     | some sd, some tok =>
@@ -172,10 +193,10 @@ def modelStep (s : MState) (line : String) : MState × String :=
   | ["inject", sd, code, tok, b1, b2, s1, s2, etag, other, seed, off, len] =>
     match parseSide sd, code.toNat?, tok.toNat?, parseBlkRaw b1, parseBlkRaw b2, parseOptNat s1, parseOptNat s2 with
     | some sd, some code, some tok, some b1, some b2, some s1, some s2 =>
-      match parseEtag etag, parseOther other, seed.toNat?, off.toNat?, len.toNat? with
+      match parseEtag etag, parseOther other, parseSeed seed, off.toNat?, len.toNat? with
       | some etag, some other, some seed, some off, some len =>
         let m : Msg := { code := code, tok := tok, block1 := b1, block2 := b2, size1 := s1, size2 := s2, etag := etag,
-                         other := other, body := genBody seed off len }
+                         other := other, body := genBodySpec seed off len }
         let s := { s with keys := if s.keys.contains tok then s.keys else tok :: s.keys }
         let (o, evs) := (toO s).recv ⟨sd, m⟩
         (fromO s o, joinEvents (evs.map fmtEvent))
@@ -193,9 +214,9 @@ def modelStep (s : MState) (line : String) : MState × String :=
       ({ s with freshQ := s.freshQ ++ [tok], keys := if s.keys.contains tok then s.keys else tok :: s.keys }, "ok")
     | none => (s, "bad-op")
   | ["resource", code, len, seed, etag, other] =>
-    match code.toNat?, len.toNat?, seed.toNat?, parseEtag etag, parseOther other with
+    match code.toNat?, len.toNat?, parseSeed seed, parseEtag etag, parseOther other with
     | some code, some len, some seed, some etag, some other =>
-      let m : Msg := { code := code, etag := etag, other := other, body := genBody seed 0 len }
+      let m : Msg := { code := code, etag := etag, other := other, body := genBodySpec seed 0 len }
       ({ s with resource := some m, w := { s.w with appB := mkAppB s.regs (some m) } }, "ok")
     | _, _, _, _, _ => (s, "bad-op")
   | ["sleep", d] =>
@@ -295,18 +316,19 @@ def judgeLine (s : JState) (line : String) : JState × String :=
     match words inp with
     | ["cfg", _, _, _, _, _, _] => some []
     | ["reg", sd, tok, code, len, seed, etag, other] => do
-      let sd ← parseSide sd; let tok ← tok.toNat?; let code ← code.toNat?; let len ← len.toNat?; let seed ← seed.toNat?
+      let sd ← parseSide sd; let tok ← tok.toNat?; let code ← code.toNat?; let len ← len.toNat?; let seed ← parseSeed seed
       let etag ← parseEtag etag; let other ← parseOther other
-      some [Ev.sent { side := sideNat sd, tok := tok, code := code, etag := etag, other := other, body := genBody seed 0 len }]
+      some [Ev.sent { side := sideNat sd, tok := tok, code := code, etag := etag, other := other, body := genBodySpec seed 0 len }]
     | ["resource", code, len, seed, etag, other] => do
-      let code ← code.toNat?; let len ← len.toNat?; let seed ← seed.toNat?
+      let code ← code.toNat?; let len ← len.toNat?; let seed ← parseSeed seed
       let etag ← parseEtag etag; let other ← parseOther other
-      some [Ev.sent { side := 1, tok := resTok, code := code, etag := etag, other := other, body := genBody seed 0 len }]
+      some [Ev.sent { side := 1, tok := resTok, code := code, etag := etag, other := other, body := genBodySpec seed 0 len }]
     | ["do", tok, _] => tok.toNat?.map (fun t => [Ev.started t])
     | ["net", "deliver"] => some []
     | "net" :: _ => some [Ev.disturbed]
     | "inject" :: _ => some [Ev.disturbed]
     | "sleep" :: _ => some [Ev.disturbed]
+    | "cancel" :: _ => some [Ev.disturbed]
     | "tick" :: _ => some [Ev.disturbed]
     | ["end"] => some []
     | _ => some []
